@@ -131,7 +131,7 @@ def build_fault(case: fam.Case, base_cfg: PortsCfg, fault: int) -> Optional[Call
     if fault == 1:
         return mk(base_cfg, encapsulee=ns_ids_t(list(m.ns) + [m.itfs[0].name]))
     if fault == 2:
-        return mk(base_cfg, encapsulee=ns_ids_t(list(m.ns) + ['Frgn']))
+        return mk(base_cfg, encapsulee=ns_ids_t(list(m.ns) + ['VfFrgn']))
     if fault == 3:
         return mk(base_cfg, encapsulee=ns_ids_t('TInt'))
     if fault in (4, 5, 6):
